@@ -1,25 +1,35 @@
 #!/usr/bin/env python3
-"""Apply a seeded change to /repo, run the given checks (default: the property's own check), undo it.
-usage: tools/run_seeded.py seeded/<id> [CHECK ...]     (never leaves /repo modified)"""
-import json, os, subprocess, sys, time
+"""Run checks against a seeded change without touching /repo: the patch is applied to a scratch git
+worktree of /repo's HEAD, the checks are pointed at it (VF_REPO) and write evidence/replays to a scratch
+directory (VF_OUT), and the worktree is removed afterwards.
+usage: tools/run_seeded.py seeded/<id> [CHECK ...]     (default: the property named in meta.json)
+Results are merged into seeded/<id>/result.json."""
+import json, os, shutil, subprocess, sys, tempfile, time
 sd = os.path.abspath(sys.argv[1])
 meta = json.load(open(os.path.join(sd, "meta.json")))
 checks = sys.argv[2:] or [meta["property"]]
 patch = os.path.join(sd, "patch.diff")
-st = subprocess.run(["git", "-C", "/repo", "status", "--porcelain", "--untracked-files=no"], capture_output=True, text=True).stdout.strip()
-if st:
-    sys.exit("refusing: /repo has local modifications: " + st)
-subprocess.run(["git", "-C", "/repo", "apply", patch], check=True)
+tier = os.environ.get("VERIF_TIER", "quick")
+wt = tempfile.mkdtemp(prefix="seedrun_", dir="/tmp")
+os.rmdir(wt)
 out = {}
 try:
+    subprocess.run(["git", "-C", "/repo", "worktree", "add", "--detach", wt, "HEAD"], check=True, capture_output=True)
+    subprocess.run(["git", "-C", wt, "apply", patch], check=True)
+    outdir = os.path.join(wt, "_vf_out")
+    env = dict(os.environ, VF_REPO=wt, VF_OUT=outdir)
     for c in checks:
         t0 = time.time()
-        p = subprocess.run(["timeout", "3000", "./check", c, "--tier", os.environ.get("VERIF_TIER", "quick")], cwd="/verif", capture_output=True, text=True)
+        p = subprocess.run(["timeout", "6000", "./check", c, "--tier", tier], cwd="/verif", capture_output=True, text=True, env=env)
         lines = [l for l in p.stdout.splitlines() if l.startswith("VIOLATION") or l.startswith("  key:") or l.startswith("OK ") or l.startswith("  ")]
-        out[c] = {"exit": p.returncode, "wall_s": round(time.time() - t0, 1), "first_lines": lines[:9], "stderr_tail": p.stderr[-300:]}
-        print(c, "exit", p.returncode, "|", " / ".join(lines[:3])[:400])
+        nviol = sum(1 for l in p.stdout.splitlines() if l.startswith("VIOLATION"))
+        out[c + ":" + tier] = {"exit": p.returncode, "violations_printed": nviol, "wall_s": round(time.time() - t0, 1), "seed": os.environ.get("VERIF_SEED", "1"),
+                               "first_lines": lines[:9], "stderr_tail": p.stderr[-300:]}
+        print(c, tier, "exit", p.returncode, f"({nviol} violation lines)", "|", " / ".join(lines[:3])[:500])
 finally:
-    subprocess.run(["git", "-C", "/repo", "checkout", "--", "."], check=True)
+    subprocess.run(["git", "-C", "/repo", "worktree", "remove", "--force", wt], capture_output=True)
+    shutil.rmtree(wt, ignore_errors=True)
+    subprocess.run(["git", "-C", "/repo", "worktree", "prune"], capture_output=True)
 res_path = os.path.join(sd, "result.json")
 prev = json.load(open(res_path)) if os.path.exists(res_path) else {}
 prev.update(out)
